@@ -20,4 +20,14 @@ CLAIMED = {
   "note": "Trusted: snapshot code and to_string as observation; documented panics matched by message.",
   "technique": "stateful property-based testing with before/after metamorphic oracle + small-scope exhaustive enumeration",
  },
+ "C07": {
+  "text": "For every node (attribute and namespace nodes included) of generated trees, of forests left behind by generated manipulation histories, and of ALL trees with <= 5 nodes, every traversal entry point and every Axis value is compared with the answer derived from a reference parent/child structure, and the XPath partition/order laws are checked on xot's own answers; all iterators bounded so non-termination is reported.",
+  "note": "Trusted: reference forest (handles known from the creation API, not from traversal code).",
+  "technique": "property-based testing with a reference model (differential per entry point) + small-scope exhaustive enumeration",
+ },
+ "C11": {
+  "text": "Generated histories of map-style and node-style updates on two elements; after every step every read accessor of the read-only AND the mutable view is compared with a reference insertion-ordered map (values, node handles, return values), and the declaration/attribute order is confirmed on outputs() and on the start tag read by an independent tokenizer. All single-step histories over a 2-key pool are enumerated.",
+  "note": "Trusted: reference Vec-based map; xmltok tokenizer.",
+  "technique": "model-based stateful property-based testing + small-scope exhaustive enumeration",
+ },
 }
